@@ -3,6 +3,7 @@
 use crate::gen::StartState;
 use crate::tokrec::{Answer, Policy, PolicyState, RTok};
 
+pub mod entities;
 pub mod reftok;
 
 /// Receiver of reference-tokenizer output. Mirrors what html5ever's `TokenSink` can do.
